@@ -1596,12 +1596,16 @@ func ruleFramePair(r *Run) {
 			r.at(&path)
 			held := r.locksAlong(&path, lockset{})
 			okW := false
+			slotKey := ""
 			for _, op := range r.mapOps(fn, &path) {
 				if op.Kind == "write" && op.Map == "recv.frameHandlers" && op.Val == "param:#0" && held[op.Idx]["Session.frameMutex"] == "W" {
 					okW = true
+					slotKey = op.Key
 				}
 			}
 			r.CheckT("E6", fn.Name+":registers", okW, fn.Body.Pos(), &path, "HandleFrame enters the callback into the table under the registration lock")
+			r.CheckT("E6", fn.Name+":fresh-slot", slotKey == "recv.frameHandlerIDs.call:SequentialIDGenerator.New()", fn.Body.Pos(), &path,
+				"a callback is registered under a slot taken from the session's frame-handler id generator (%s): a slot derived from anything else (the table's size, say) can collide with a live registration and silently replace another member's callback", slotKey)
 		}
 		for _, lf := range r.litsUnder(fn) {
 			for _, path := range r.Paths(lf) {
